@@ -897,11 +897,11 @@ func TestC09(t *testing.T) {
 	if !regress(t, "C09") {
 		return
 	}
-	c09Sub.rapidCheck(t, pickTier(4000, 30000), c09Gen)
+	c09Sub.rapidCheck(t, pickTier(4000, 80000), c09Gen)
 	if t.Failed() {
 		return
 	}
-	c09Client.rapidCheck(t, pickTier(2000, 15000), c09GenClient)
+	c09Client.rapidCheck(t, pickTier(2000, 40000), c09GenClient)
 	if t.Failed() {
 		return
 	}
